@@ -292,57 +292,88 @@ def size_of(t):
     return {"u8": 1, "i8": 1, "u16": 2, "i16": 2, "u32": 4, "i32": 4, "u64": 8, "i64": 8}.get(t)
 
 
+DISPATCH_LENS = [0, 1, 2, 3, 4, 5, 6, 7, 8, 9, 10, 15, 16, 17, 255, 256, 65535, 65536, (1 << 32) - 1]
+
+
 def check_dispatch(ctx, F, A, X, adt_def, spec_types):
+    """Width dispatch, decided per (type, length) class of the TLF with the real check_tlf bodies: the value is parsed by the
+    narrowest specified type whose (separately verified) acceptance box contains the class, from the unchanged input and TLF,
+    and is bound into the variant of that type; every other class is a TlfMismatch."""
     ip = A.ip
     body = find_impl_body(F, SPT, "parse_with_tlf", adt_def)
     where = (body["span"]["file"], body["span"]["line"], body["def"])
     adt = F.adts[adt_def]
-    longest = []
-    arms = {}
-    for p in X.paths(body):
-        checks = [(self_type_of(e["key"]), e) for e in p["trace"] if e["key"].endswith("::check_tlf")]
-        order = [c[0] for c in checks]
-        if len(order) > len(longest):
-            longest = order
-        evs = parse_events(p)
-        if evs:
-            # the candidate that was accepted is the last check on the path; it must have returned true
-            t_checked, ev = checks[-1]
-            truth = p["st"].const_of(Lin.sym(ev["ret"].e[1])) if isinstance(ev["ret"], VBool) and ev["ret"].e[0] == "sym" else None
-            earlier_false = all(p["st"].const_of(Lin.sym(c[1]["ret"].e[1])) == 0 for c in checks[:-1])
-            t_parsed = self_type_of(evs[0]["key"])
-            same_args = evs[0]["ev"]["args"][1] == ev["args"][0] if len(evs[0]["ev"]["args"]) > 1 else False
-            okp = ok_payload(ip, p["st"], p["ret"])
-            vname = None
-            if okp is not None and isinstance(okp[1], VEnum):
-                vname = adt["variants"][p["st"].const_of(okp[1].disc)]["name"]
-            arms[t_checked] = {"parsed": t_parsed, "truth": truth, "earlier_false": earlier_false, "same_tlf": same_args,
-                               "input_ok": evs[0]["input"] == p["args"][0], "variant": vname,
-                               "bound": okp is None or find_in(okp[1], evs[0]["val"])}
-    ctx.count("R-C03-WIDTH", len(spec_types) + 1)
-    ctx.sample({"dispatch": adt_def, "order": longest})
-    # order: narrowest first within each signedness; every specified type is a candidate exactly once
-    ok = sorted(longest) == sorted(spec_types)
-    for sign in ("u", "i"):
-        sizes = [size_of(t) for t in longest if size_of(t) and t.startswith(sign)]
-        if sizes != sorted(sizes) or len(set(sizes)) != len(sizes):
-            ok = False
-    ctx.oblig(ok)
-    if not ok:
-        ctx.violation("R-C03-WIDTH", adt_def + "|order", where,
-                      "candidate order %r: every specified type must be tried once, narrowest first within each signedness (else a value "
-                      "is returned in a wider variant than its encoded size)" % (longest,))
-    for t in spec_types:
-        a = arms.get(t)
-        ok = a is not None and a["parsed"] == t and a["truth"] == 1 and a["earlier_false"] and a["same_tlf"] and a["input_ok"] and a["bound"]
-        if ok and a["variant"]:
-            # the variant's payload type is the checked type (variant field type from the ADT)
-            vdef = [v for v in adt["variants"] if v["name"] == a["variant"]][0]
-            from ..vra.types import ty_str
-            ok = norm_ty(ty_str(vdef["fields"][0]["ty"])) == t
-        ctx.oblig(ok)
-        if not ok:
-            ctx.violation("R-C03-WIDTH", "%s|arm=%s" % (adt_def, t), where, "arm for %s: must parse with the type it checked, on the same input and TLF (%r)" % (t, a))
+    ty_adt = F.adts["parser::tlf::Ty"]
+    fn = [f["name"] for f in F.adts[TLF]["variants"][0]["fields"]]
+    from ..vra.types import ty_str
+    slty = body["locals"][1]["ty"]
+    seen_types = set()
+    n_classes = 0
+    bad = {}
+    X.real_checks = True
+    try:
+        for tv in ty_adt["variants"]:
+            for ln in DISPATCH_LENS:
+                cands = []
+                for T in spec_types:
+                    tn, lo, hi = SPEC_CHECK_TLF[T]
+                    if tn == tv["name"] and lo <= ln and (hi is None or ln <= hi):
+                        cands.append(T)
+                sized = [T for T in cands if size_of(T)]
+                if sized:
+                    expected = min(sized, key=size_of)
+                else:
+                    expected = cands[0] if cands else None
+                if len(cands) > 1 and not sized:
+                    raise AnchorMissing("ambiguous dispatch table for %s" % adt_def)
+                st = ip.new_state()
+                inp = ip.fresh_value(st, slty, "input")
+                vals = [None, None]
+                vals[fn.index("ty")] = VEnum("parser::tlf::Ty", Lin.const(tv["idx"]), {tv["idx"]: ()})
+                vals[fn.index("len")] = cint(ln, 32, False)
+                root = ip.new_oid("tlf")
+                st.mem[root] = VAgg("struct", TLF, vals)
+                tref = VRef(root, (), False)
+                n_classes += 1
+                paths = X.paths(body, args=[inp, tref], st=st)
+                why = None
+                if not paths:
+                    why = "no path"
+                for p in paths:
+                    evs = [e for e in parse_events(p) if not e["key"].endswith("::check_tlf")]
+                    okp = ok_payload(ip, p["st"], p["ret"])
+                    if expected is None:
+                        if evs or okp is not None or err_variant(F, p["st"], p["ret"]) != "TlfMismatch":
+                            why = "must be rejected with TlfMismatch (parsed %r)" % ([self_type_of(e["key"]) for e in evs],)
+                        continue
+                    if len(evs) != 1 or self_type_of(evs[0]["key"]) != expected:
+                        why = "must be parsed as %s, is parsed as %r" % (expected, [self_type_of(e["key"]) for e in evs] or err_variant(F, p["st"], p["ret"]))
+                        continue
+                    seen_types.add(expected)
+                    ev = evs[0]
+                    if ev["input"] != inp or len(ev["ev"]["args"]) < 2 or ev["ev"]["args"][1] != tref:
+                        why = "%s must be parsed from the unchanged input and the same TLF" % expected
+                        continue
+                    if okp is not None:
+                        v = okp[1]
+                        vi = p["st"].const_of(v.disc) if isinstance(v, VEnum) else None
+                        vdef = adt["variants"][vi] if vi is not None else None
+                        if vdef is None or not vdef["fields"] or norm_ty(ty_str(vdef["fields"][0]["ty"])) != expected or not find_in(v, ev["val"]) \
+                                or okp[0] != ev["rest"]:
+                            why = "the %s value must be returned in the variant of that type with the parser's rest (variant %s)" % (expected, vdef and vdef["name"])
+                ctx.oblig(why is None)
+                if why is not None:
+                    bad.setdefault((expected, why), []).append((tv["name"], ln))
+    finally:
+        X.real_checks = False
+    ctx.count("R-C03-WIDTH", n_classes)
+    ctx.sample({"dispatch": adt_def, "classes": n_classes, "types_reached": sorted(seen_types)})
+    for (expected, why), classes in sorted(bad.items(), key=lambda kv: str(kv[0])):
+        ctx.violation("R-C03-WIDTH", "%s|arm=%s" % (adt_def, expected), where,
+                      "TLF classes %r: %s (a value would be returned in a wider / wrong variant than its encoding)" % (classes[:6], why))
+    missing = [T for T in spec_types if T not in seen_types]
+    if missing:
+        ctx.violation("R-C03-WIDTH", adt_def + "|order", where, "specified types never selected by the dispatch: %r" % (missing,))
 
 
 def check_option(ctx, F, A, X):
